@@ -17,8 +17,9 @@ CONSTANTS RootNames,        \* indices of Names used for the root file in the "s
           Stride,           \* keep every Stride-th tree of the structure family (1 = all)
           AncestorFollow,   \* TRUE only in the refuted control: walk trees with an ancestor link recursively WITH follow_symlinks
           MaxWalkDepth      \* bound on the depth of a visited directory
-VARIABLES T, fl, pc, stack, cur, todo, out, steps
-vars == <<T, fl, pc, stack, cur, todo, out, steps>>
+VARIABLES T, fl, pc, stack, cur, todo, out, steps,
+          req       \* ghost: Req's set FileTree!Code(T, fl), computed once when the call starts
+vars == <<T, fl, pc, stack, cur, todo, out, steps, req>>
 
 \* ------------------------------------------------------------------ universe
 Names == << <<"a", "wav">>, <<"B", "WAV">>, <<"c", "Wav">>, <<"notes", "txt">>, <<"noext">>, <<"", "wav">>,
@@ -97,19 +98,19 @@ Reverse(s) == [i \in DOMAIN s |-> s[Len(s) + 1 - i]]
 Init == /\ \/ \E c \in NamesFamily \cup RootFamily : T = Build(c)
            \/ InStructure(T)
         /\ fl \in FlagsFor(T)
-        /\ pc = "start" /\ stack = <<>> /\ cur = <<>> /\ todo = <<>> /\ out = <<>> /\ steps = 0
+        /\ pc = "start" /\ stack = <<>> /\ cur = <<>> /\ todo = <<>> /\ out = <<>> /\ steps = 0 /\ req = {}
 
 \* path.is_dir() is false: ValueError
 NotDir == /\ pc = "start" /\ ~RootIsDir(T) /\ pc' = "raised"
-          /\ steps' = steps + 1 /\ UNCHANGED <<T, fl, stack, cur, todo, out>>
+          /\ steps' = steps + 1 /\ UNCHANGED <<T, fl, stack, cur, todo, out, req>>
 \* not recursive: for file in path.iterdir(): every entry of the top level, directories included
 StartFlat == /\ pc = "start" /\ RootIsDir(T) /\ ~fl.rec
              /\ pc' = "flat" /\ todo' = SeqOfSet(Children(T, <<>>))
-             /\ steps' = steps + 1 /\ UNCHANGED <<T, fl, stack, cur, out>>
+             /\ steps' = steps + 1 /\ req' = Code(T, fl) /\ UNCHANGED <<T, fl, stack, cur, out>>
 \* recursive: os.walk(path, followlinks=follow_symlinks): stack = [top]
 StartWalk == /\ pc = "start" /\ RootIsDir(T) /\ fl.rec
              /\ pc' = "walk" /\ stack' = <<<<>>>>
-             /\ steps' = steps + 1 /\ UNCHANGED <<T, fl, cur, todo, out>>
+             /\ steps' = steps + 1 /\ req' = Code(T, fl) /\ UNCHANGED <<T, fl, cur, todo, out>>
 \* top = stack.pop(); scandir(top): dirs = entries with is_dir() (links followed), nondirs = the rest; the files of top are
 \* examined next; then for dirname in reversed(dirs): if followlinks or not islink(join(top, dirname)): stack.append(...)
 Visit == /\ pc = "walk" /\ todo = <<>> /\ stack # <<>>
@@ -120,19 +121,19 @@ Visit == /\ pc = "walk" /\ todo = <<>> /\ stack # <<>>
             IN  /\ cur' = top
                 /\ todo' = SeqOfSet(Children(T, at) \ dirs)
                 /\ stack' = FrontOf(stack) \o Reverse([j \in DOMAIN push |-> top \o <<T.ents[push[j]].n>>])
-         /\ steps' = steps + 1 /\ UNCHANGED <<T, fl, pc, out>>
+         /\ steps' = steps + 1 /\ UNCHANGED <<T, fl, pc, out, req>>
 \* is_audio_file(cur / name, strict) on the next entry
 Path == cur \o <<T.ents[Head(todo)].n>>
 Examining == pc \in {"flat", "walk"} /\ todo # <<>>
-Skip  == todo' = Tail(todo) /\ steps' = steps + 1 /\ UNCHANGED <<T, fl, pc, stack, cur, out>>
-Yield == todo' = Tail(todo) /\ out' = Append(out, Path) /\ steps' = steps + 1 /\ UNCHANGED <<T, fl, pc, stack, cur>>
+Skip  == todo' = Tail(todo) /\ steps' = steps + 1 /\ UNCHANGED <<T, fl, pc, stack, cur, out, req>>
+Yield == todo' = Tail(todo) /\ out' = Append(out, Path) /\ steps' = steps + 1 /\ UNCHANGED <<T, fl, pc, stack, cur, req>>
 ExNotFile      == Examining /\ Stat(T, Path).kind # "file" /\ Skip                                      \* not path.is_file()
 ExBadExt       == Examining /\ Stat(T, Path).kind = "file" /\ ~ExtOK(LastOf(Path)) /\ Skip              \* suffix[1:].lower() not in VALID
 ExYieldLoose   == Examining /\ Stat(T, Path).kind = "file" /\ ExtOK(LastOf(Path)) /\ ~fl.strict /\ Yield
 ExYieldStrict  == Examining /\ Stat(T, Path).kind = "file" /\ ExtOK(LastOf(Path)) /\ fl.strict /\ Decodable(T, Stat(T, Path)) /\ Yield
 ExRejectStrict == Examining /\ Stat(T, Path).kind = "file" /\ ExtOK(LastOf(Path)) /\ fl.strict /\ ~Decodable(T, Stat(T, Path)) /\ Skip  \* sf.info raises
-Done == /\ pc \in {"flat", "walk"} /\ todo = <<>> /\ (pc = "flat" \/ stack = <<>>)
-        /\ pc' = "done" /\ steps' = steps + 1 /\ UNCHANGED <<T, fl, stack, cur, todo, out>>
+Done == /\ pc \in {"flat", "walk"} /\ todo = <<>> /\ (pc = "walk" => stack = <<>>)
+        /\ pc' = "done" /\ steps' = steps + 1 /\ UNCHANGED <<T, fl, stack, cur, todo, out, req>>
 Next == NotDir \/ StartFlat \/ StartWalk \/ Visit \/ ExNotFile \/ ExBadExt \/ ExYieldLoose \/ ExYieldStrict \/ ExRejectStrict \/ Done
 Spec == Init /\ [][Next]_vars /\ WF_vars(Next)
 
@@ -144,11 +145,11 @@ Export == (Terminal /\ fl = F0) =>
               PrintT(<<"CASE", ToJson([kind |-> "tree", tree |-> T, calls |-> SetToSeq(FlagsFor(T)), probes |-> Probes(T), ds |-> DsCalls])>>)
 
 \* ------------------------------------------------------------------ Impl => Req, laws, termination
-ImplRefinesReq == pc = "done" => Range(out) = Code(T, fl) /\ Len(out) = Cardinality(Code(T, fl))
+ImplRefinesReq == pc = "done" => Range(out) = req /\ Len(out) = Cardinality(req) /\ req = Code(T, fl)
 RaisedIffNotDir == (pc = "raised" => ~RootIsDir(T)) /\ (pc \in {"flat", "walk", "done"} => RootIsDir(T))
-ImplPrefix == pc \in {"flat", "walk"} => Range(out) \subseteq Code(T, fl)
+ImplPrefix == pc \in {"flat", "walk"} => Range(out) \subseteq req /\ Len(out) = Cardinality(Range(out))
 \* laws of Req (evaluated once per run)
-AtStart == pc = "start"
+AtStart == steps = 1          \* (not on the initial states: TLC computes those single-threaded)
 LawBetween   == AtStart => Must(T, fl) \subseteq Code(T, fl) /\ Code(T, fl) \subseteq Allowed(T, fl)
 LawFinite    == (AtStart /\ fl.rec) => Finite(T, fl.follow)                                   \* no directory deeper than K - 1
 LawTopLevel  == AtStart => Code(T, [fl EXCEPT !.rec = FALSE]) = {p \in Code(T, [fl EXCEPT !.rec = TRUE]) : Len(p) = 1}
